@@ -32,6 +32,37 @@ def mcbSignedH (g : Graph) (order : List Nat) (σ : Nat → List Nat → List Na
   let r := mcbSignedCore .signed fi.dim (unitSupports fi.dim) (fun k S => signedPhaseSearchH gi fi.reverse (σ k S) S)
   { cycles := translateBack fi.reverse r.cycles, weight := r.weight }
 
+/-! ### `mcb_sva_signed_tbb` with literal heaps -/
+
+def allVerticesTbbH (g : Graph) (ord : List Nat) (S : List Nat) (s : Sched) : Cyc (List Nat) :=
+  reduceMin (fun v L => searchSignedH g ord S [] v true v false L) s
+
+def hiddenIndexTbbH (g : Graph) (ord : List Nat) (S σ : List Nat) (i : Nat) (limit : Option Int) : Cyc (List Nat) :=
+  match σ[i]? with
+  | none => none
+  | some e => hiddenTake g e none (searchSignedH g ord S (σ.drop i) (g.src e) true (g.tgt e) true limit)
+
+def hiddenTbbH (g : Graph) (ord : List Nat) (S σ : List Nat) (s : Sched) : Cyc (List Nat) :=
+  reduceMin (hiddenIndexTbbH g ord S σ) s
+
+def singleEdgeTbbH (g : Graph) (ord : List Nat) (e : Nat) : Cyc (List Nat) :=
+  hiddenTake g e none (searchSignedH g ord [] [e] (g.src e) true (g.tgt e) true none)
+
+/-- `OddCycleFinder::find` on literal heaps -/
+def signedPhaseSearchTbbH (g : Graph) (ord : List Nat) (σ : List Nat) (S : List Nat) (s : Sched) : Cyc (List Nat) :=
+  match S with
+  | [e] => singleEdgeTbbH g ord e
+  | _ => if g.n ≤ S.length then allVerticesTbbH g ord S s else hiddenTbbH g ord S σ s
+
+/-- `mcb_sva_signed_tbb` with literal heaps: deterministic given `order`, `σ`, the push order `perm` and the schedules -/
+def mcbSignedTbbH (g : Graph) (order : List Nat) (σ : Nat → List Nat → List Nat) (perm : List Nat)
+    (scheds : Nat → List Nat → Sched) : McbResult :=
+  let fi := createIndex g order
+  let gi := reindex g fi
+  let r := mcbSignedCore .signedTbb fi.dim (perm.map fun i => [i])
+    (fun k S => signedPhaseSearchTbbH gi fi.reverse (σ k S) S (scheds k S))
+  { cycles := translateBack fi.reverse r.cycles, weight := r.weight }
+
 /-- the cycle of one dropped edge, `parmcb::dijkstra` on a literal heap -/
 def nonSpannerCycleH (g : Graph) (R : List Nat) (e : Nat) : List Nat × Int :=
   let sp := spannerGraph g R
